@@ -439,6 +439,27 @@ def op_bad_param(form, r):
     return Plan(form, tokens=toks, row=rows_of(form)[id(node)][0], depth=len(anc), note=f"{base_type(typ)}:{par.replace(TOK, '*')}")
 
 
+def op_list_name_contains_reference(form, r):
+    """a list name that merely contains a ${reference} is not a select from a repeat: it names a list that does not exist"""
+    named = [n for n, _ in _questions(form, lambda n: "name" in n["c"] and base_type(n["c"].get("type")) in VISIBLE_SIMPLE)]
+    if not named:
+        return None
+    ref = "${%s}" % r.choice(named)["c"]["name"]
+    lst = r.choice([f"{TOK}{ref}y", f"{ref}{TOK}", f"{TOK}{ref}", f"{ref}{ref}"])
+    node = {"k": "q", "c": {"type": f"{r.choice(['select_one', 'select_multiple'])} {lst}", "name": f"{TOK}sel", "label": "S"}}
+    form["nodes"].append(node)
+    if not form.get("lists"):
+        form["lists"] = [{"name": "zl", "rows": [{"name": "a", "label": "A"}]}]     # (without any list the diagnosis is about the missing sheet)
+    return Plan(form, anyof=[lst, "List name", "list"], row=rows_of(form)[id(node)][0], stable=False)
+
+
+def op_osm_tag_without_name(form, r):
+    node = {"k": "q", "c": {"type": "osm ztags", "name": f"{TOK}osm", "label": "O"}}
+    form["nodes"].append(node)
+    form["osm"] = list(form.get("osm") or []) + [{"list_name": "ztags", "name": "building", "label": "B"}, {"list_name": "ztags", "label": f"{TOK} no name"}]
+    return Plan(form, tokens=["name"], anyof=["osm", "tag", "Tag"], sheet="osm", stable=False)
+
+
 def op_dup_header(form, r):
     sheets = model.to_sheets(form)
     head = list(sheets["survey"][0])
@@ -446,8 +467,9 @@ def op_dup_header(form, r):
     if not cands:
         return None
     h = r.choice(cands)
-    form["survey_header"] = [*head, h]
-    return Plan(form, tokens=["Duplicate column header", h], xlsx=True)
+    # the second copy may differ in surrounding spaces only (headers are trimmed), and every file container has to notice
+    form["survey_header"] = [*head, h + r.choice(["", "", " ", "  "])]
+    return Plan(form, tokens=["Duplicate column header", h], xlsx=r.choice(["xlsx", "xlsx", "csv", "md"]))
 
 
 ALIAS_PAIRS = [("label", "caption"), ("name", "value"), ("relevant", "relevance"), ("calculation", "calculate"), ("readonly", "read_only"),
@@ -796,7 +818,7 @@ OPS = {
     "missing-survey": op_missing_survey, "or-other-with-filter": op_or_other_with_filter,
     "space-in-multi-choice": op_space_in_multi_choice, "wrong-file-ext": op_wrong_file_ext, "audit-with-name": op_audit_with_name,
     "big-image-no-image": op_big_image_no_image, "no-label": op_no_label, "external-no-sheet": op_external_no_sheet,
-    "external-unknown-list": op_external_unknown_list, "bad-trigger": op_bad_trigger, "search-misuse": op_search_misuse,
+    "external-unknown-list": op_external_unknown_list, "bad-trigger": op_bad_trigger, "list-name-contains-reference": op_list_name_contains_reference, "osm-tag-without-name": op_osm_tag_without_name, "search-misuse": op_search_misuse,
     "omit-instanceid-with-key": op_omit_instance_id_with_key, "save-to-problem": op_save_to_problem,
     "table-list-mismatch": op_table_list_mismatch, "loop-problems": op_loop_problems,
 }
@@ -1157,9 +1179,17 @@ def convert_plan(plan):
     args = {k: v for k, v in form.get("args", {}).items() if k in ("form_name", "default_language")}
     if plan.xlsx:
         try:
-            data = render.to_xlsx(form)
+            if plan.xlsx == "csv":
+                data = render.to_csv(form)
+            elif plan.xlsx == "md" and render.md_ok(form):
+                data = render.to_md(form)
+            else:
+                data = render.to_xlsx(form)
         except Exception as e:  # noqa: BLE001
             return "writer", e, None
+        if isinstance(data, str):
+            # text is sniffed by trying each reader, which hides what a reader has to say: name the format as a path suffix would
+            args = dict(args, file_type=".csv" if plan.xlsx == "csv" else ".md")
         return (*common.run_workbook(data, **args), data)
     wb = model.to_workbook_dict(form)
     return (*common.run_workbook(wb, **args), wb)
